@@ -45,7 +45,7 @@ def given_weights_guard(prog, rep, RID, cname, sol_key):
     def on_assign(stmt, target, value, state):
         orig(stmt, target, value, state)
         if dotted(value) == "self._given_weights_model":
-            hits.append((stmt, target, state))
+            flow.record(hits, (stmt, target, state))
     flow.on_assign = on_assign
     flow.run(f.node)
     pat = re.compile(r"^len\(self\._given_weights_model\.get_solution\(.*\)\[['\"]%s['\"]\]\)==%s$|^%s==len\(self\._given_weights_model\.get_solution\(.*\)\[['\"]%s['\"]\]\)$"
